@@ -152,6 +152,20 @@ fn word_mk<R: Rng>(rng: &mut R) -> [u8; 4] {
     [(c & 0xFF) as u8, (c >> 8) as u8, (c >> 16) as u8, 0xFF]
 }
 fn word_bad<R: Rng>(rng: &mut R) -> [u8; 4] {
+    // half of the invalid words are near misses of valid ones: a scaler header with one field off
+    if rng.gen_bool(0.5) {
+        let mut w = [0x3C, 0, 0, 0xFE];
+        match rng.gen_range(0..5) {
+            0 => w[0] ^= 1 << rng.gen_range(0..8),
+            1 => w[0] = rng.gen_range(0x3D..=0xFF),
+            2 => w[0] = rng.gen_range(0..0x3C),
+            3 => w[rng.gen_range(1..3)] = 1 << rng.gen_range(0..8),
+            _ => w[3] ^= 1 << rng.gen_range(0..7),
+        }
+        if w != [0x3C, 0, 0, 0xFE] && !(w[3] >= 0x80 && w[3] < 0x80 + 59) && w[3] != 0xFF {
+            return w;
+        }
+    }
     let top: u8 = match rng.gen_range(0..5) {
         0 => rng.gen_range(0..0x80),
         1 => 0x80 + 59,
@@ -242,11 +256,13 @@ pub fn sweep(out: &str, full: bool) {
     use rayon::prelude::*;
     // class code: 0 invalid, 1000 block, 1 marker, 100+ch timestamp
     let classify = |w: u32| -> u32 {
-        let mut buf = [0u8; SCALER_LEN];
+        // the word followed by 257 zero words (zero words are invalid, so parsing stops right after
+        // whatever the first word made the parser consume)
+        let mut buf = [0u8; 1032];
         buf[..4].copy_from_slice(&w.to_le_bytes());
         let mut input = &buf[..];
         let entries = chronobox_fifo(&mut input);
-        let consumed = SCALER_LEN - input.len();
+        let consumed = 1032 - input.len();
         match (consumed, entries.first()) {
             (0, None) => 0,
             (4, Some(FifoEntry::WrapAroundMarker(_))) => 1,
